@@ -372,10 +372,70 @@ class _Inliner(object):
             out.append(s)
         return out
 
+    def inline_predicates(self, fnode, cls):
+        """Expression-level inlining of new helpers whose body is a single
+        ``return <expr>`` when every argument is a plain name, attribute chain
+        or constant (so evaluating it where the parameter stood changes
+        nothing): ``if self._is_x(a, b):`` reads like the condition itself."""
+        changed = True
+        rounds = 0
+        while changed and rounds < 4:
+            changed = False
+            rounds += 1
+            for n in list(ast.walk(fnode)):
+                if isinstance(n, FUNC + (ast.Lambda,)) and n is not fnode:
+                    continue
+                for fld, val in ast.iter_fields(n):
+                    items = val if isinstance(val, list) else [val]
+                    for idx, c in enumerate(items):
+                        if not isinstance(c, ast.Call):
+                            continue
+                        r = self.resolve(c, cls)
+                        if r is None:
+                            continue
+                        fn, skip = r
+                        body = _strip_doc(fn.body)
+                        if len(body) != 1 or not isinstance(
+                                body[0], ast.Return) or body[0].value is None:
+                            continue
+                        if not all(isinstance(a, (ast.Name, ast.Constant)) or
+                                   (isinstance(a, ast.Attribute) and
+                                    _attr_chain(a)) for a in c.args) or \
+                                c.keywords:
+                            continue
+                        params = [a.arg for a in fn.args.args][skip:]
+                        if len(params) != len(c.args) or fn.args.kwonlyargs:
+                            continue
+                        expr = copy.deepcopy(body[0].value)
+                        holder = ast.Expression(body=expr)
+                        m = dict(zip(params, c.args))
+
+                        class _S(ast.NodeTransformer):
+                            def visit_Name(self_, nn):
+                                if nn.id in m and isinstance(nn.ctx,
+                                                             ast.Load):
+                                    return ast.copy_location(
+                                        copy.deepcopy(m[nn.id]), nn)
+                                return nn
+                        _S().visit(holder)
+                        new = ast.copy_location(holder.body, c)
+                        for x in ast.walk(new):
+                            if not hasattr(x, 'lineno'):
+                                ast.copy_location(x, c)
+                        if isinstance(val, list):
+                            val[idx] = new
+                        else:
+                            setattr(n, fld, new)
+                        self.count += 1
+                        self.expanded.setdefault(fn.name, 0)
+                        self.expanded[fn.name] += 1
+                        changed = True
+
     def run(self):
         def walk(body, cls):
             for n in body:
                 if isinstance(n, FUNC):
+                    self.inline_predicates(n, cls)
                     n.body = self.block(n.body, cls)
                 elif isinstance(n, ast.ClassDef):
                     walk(n.body, (cls + '.' if cls else '') + n.name)
@@ -437,6 +497,12 @@ class _Replace(ast.NodeTransformer):
         if node is self.old:
             return ast.copy_location(self.new, node)
         return self.generic_visit(node)
+
+
+def _attr_chain(a):
+    while isinstance(a, ast.Attribute):
+        a = a.value
+    return isinstance(a, ast.Name)
 
 
 def _aslist(x):
